@@ -57,9 +57,9 @@ impl SLIT {
         }
     }
 
-    fn update_header(&mut self, old_values: &[u8], new_value: u8) {
+    fn update_header(&mut self, old_values: &[u8], new_values: &[u8]) {
         self.checksum.delete(old_values);
-        self.checksum.append(&[new_value, new_value]);
+        self.checksum.append(new_values);
         self.header.checksum = self.checksum.value();
     }
 
@@ -73,7 +73,12 @@ impl SLIT {
 
         self.entries[domain_a + self.localities as usize * domain_b] = locality_value;
         self.entries[domain_b + self.localities as usize * domain_a] = locality_value;
-        self.update_header(&old_values, locality_value);
+        if domain_a == domain_b {
+            // a diagonal cell is a single byte of the table, not a mirrored pair
+            self.update_header(&old_values[..1], &[locality_value]);
+        } else {
+            self.update_header(&old_values, &[locality_value, locality_value]);
+        }
     }
 }
 
